@@ -120,6 +120,7 @@ type CLICase struct {
 	Packager string     `json:"packager"` // format the package is meant for
 	PassP    bool       `json:"pass_p"`   // give -p
 	Target   string     `json:"target"`   // kind: file-matching | file-foreign | dir | empty | dir-slash
+	Stale    bool       `json:"stale,omitempty"` // a longer file already sits at the final path
 }
 
 func magicOf(f string, b []byte) bool {
@@ -216,6 +217,10 @@ func checkC15CLI(cc *CLICase) []Violation {
 				}
 			}
 		}
+		if cc.Stale && !expectError {
+			// something longer than the package is already there (an earlier build, another file of that name)
+			_ = os.WriteFile(wantPath, bytes.Repeat([]byte("stale bytes of an earlier file\n"), 40000), 0o644)
+		}
 		cmd := exec.Command(bin, args...)
 		cmd.Dir = work
 		cmd.Env = append(os.Environ(), "SOURCE_DATE_EPOCH=1000000000")
@@ -249,6 +254,10 @@ func checkC15CLI(cc *CLICase) []Violation {
 		}
 		if !magicOf(wantFormat, b) {
 			vs.add("C15.cli.wrong-packager", f, "nfpm %v wrote %s which is not a %s package", args[3:], wantPath, wantFormat)
+		}
+		// the file holds exactly the package: the same bytes the library produces for these settings
+		if lib, err := c.BuildOne(root, wantFormat); err == nil && !bytes.Equal(lib, b) {
+			vs.add("C15.cli.file-content", f, "nfpm %v wrote %d bytes to %s, the package for these settings has %d bytes%s", args[3:], len(b), wantPath, len(lib), describeDiff(wantFormat, b, lib))
 		}
 		if !strings.Contains(string(out), wantPath) && cc.Target != "empty" {
 			vs.add("C15.cli.output", f, "nfpm does not report the created path %s: %q", wantPath, out)
@@ -302,8 +311,13 @@ func TestC15(t *testing.T) {
 				if f == "archlinux" {
 					c.Meta.Prerelease = "" // keep the known pkgver finding out of the CLI matrix
 				}
-				cc := &CLICase{Case: c, Packager: f, PassP: passP, Target: tk}
-				st.Record(map[string]any{"packager": f, "target": tk, "pass_p": passP}, true, "cli-matrix", "cli-target:"+tk)
+				// every format has an override block: the CLI must build the effective settings of the format it ends up using
+				c.Extra = map[string]any{"overrides": map[string]any{}}
+				for _, g := range AllFormats {
+					c.Extra["overrides"].(map[string]any)[g] = map[string]any{"depends": []any{"only-for-" + g}}
+				}
+				cc := &CLICase{Case: c, Packager: f, PassP: passP, Target: tk, Stale: n%2 == 1}
+				st.Record(map[string]any{"packager": f, "target": tk, "pass_p": passP, "stale": cc.Stale}, true, "cli-matrix", "cli-target:"+tk)
 				st.Report(t, map[string]any{"cli": cc}, checkC15CLI(cc))
 				n++
 			}
